@@ -4,6 +4,7 @@ pub mod c01;
 pub mod c02;
 pub mod c05;
 pub mod c06;
+pub mod c07;
 pub mod c08;
 pub mod c09;
 pub mod c10;
@@ -65,6 +66,7 @@ pub fn all() -> Vec<Box<dyn Check>> {
     v.push(Box::new(c02::C02 { family: "c02_closed_loop_faults_then_quiet", faults: true, quick_runs: 1000, thorough_runs: 50_000 }));
     v.push(Box::new(c05::C05));
     v.push(Box::new(c06::C06));
+    v.push(Box::new(c07::C07));
     v.push(Box::new(c08::C08Driver));
     v.push(Box::new(c09::C09));
     v.push(Box::new(c10::C10));
@@ -136,6 +138,9 @@ pub fn extras(property: &str) -> EvidenceExtras {
         }
         "C06" => {
             e.rule = "each run = one ordinary clock (normal, clockClass<128 or slave-only) and 1-3 (one run in 12: nine) scripted masters whose Announce arrivals over 16 intervals are drawn per interval from {present, absent, duplicated with the same sequenceId, stale sequenceId, two delivered out of order}, sequence ids straddling 65535->0, stepsRemoved 254/255/300, one master bearing the instance's own clock identity; BMCA phase from the tape; after every BMCA run the observed parent is checked against an arrival-time model (necessary, sufficient, expiry); non-trivial = the port was slave at some BMCA run; distinct = arrival-pattern fingerprint".into();
+        }
+        "C07" => {
+            e.rule = "each run = one generated host history (random-history driver with a faithful host: masters appearing / disappearing, Sync/Follow_Up/Delay traffic, late and lost TX timestamps, run-time setting changes, 1-3 ports with random configuration) executed twice from the same tape; the second world additionally receives 1-8 noise frames of the classes of the statement (other domain, other sdoId, versionPTP != 2, malformed, Announce from an unacceptable master, Announce with the port's own identity, Sync/Follow_Up/Delay_Resp from a non-parent, Delay_Resp for another requester) at tape-chosen positions; after every operation both worlds are compared (emitted frames, timers, data sets, clock commands, full Debug dump of every port incl. instance state, foreign-master records and RNG), with a long quiet tail; non-trivial = at least one noise frame delivered; distinct = history transition fingerprint x noise-class sequence".into();
         }
         "C08" => {
             e.rule = "each run = one generated history over the host-call alphabet (timers armed or not, BMCA, Announces from better/worse/own/unacceptable masters, Sync/Follow_Up/Delay_Resp/Pdelay traffic, TX timestamps prompt/late/lost, run-time slave-only and quality changes) on an instance with 1-3 ports in random master-only/slave-only/E2E/P2P configuration, or one generated network; role invariants are evaluated after every host call; non-trivial = at least one port state transition; distinct = distinct state-transition sequence fingerprint".into();
